@@ -33,7 +33,7 @@ ASSUMPTIONS = [
 ]
 REQUIRED_COUNTERS = ["pairs", "pairs_across_processes", "generator_routes_checked", "resamplings_accounted"]
 
-KINDS = ["zuko_train", "flowjax_train", "is_analytic", "is_zuko", "is_flowjax", "minipcn", "smc_ctor", "smc_sample", "smc_top", "blackjax"]
+KINDS = ["zuko_train", "flowjax_train", "is_analytic", "is_zuko", "is_flowjax", "minipcn", "smc_ctor", "smc_sample", "smc_top", "blackjax", "smc_flowprec"]
 
 
 def cases(tier, seed):
@@ -42,6 +42,8 @@ def cases(tier, seed):
     for k in range(n):
         kind = KINDS[k % len(KINDS)]
         sub = (k % 11 == 0) if tier == "quick" else (k % 2 == 0)
+        if kind == "smc_flowprec":
+            sub = (k % 2 == 0) if tier == "quick" else (k % 2 == 0)
         out.append({"kind": kind, "seed": [seed, 20, k], "k": k, "subprocess": bool(sub)})
     # group by kind so that a worker reuses its jit caches across the cases of its chunk
     out.sort(key=lambda c: (KINDS.index(c["kind"]), c["k"]))
@@ -126,6 +128,20 @@ def execute(spec, which):
         out["draw_x"], out["draw_lq"] = to_np(x), to_np(lq)
         out["train_loss"] = np.asarray([float(v) for v in hist.training_loss])
         out["val_loss"] = np.asarray([float(v) for v in hist.validation_loss])
+    elif kind == "smc_flowprec":
+        # SMC whose preconditioner is itself a (tiny, real) flow trained during the run: its seed is the user's flow seed
+        a, _ = real_flow_aspire("zuko", "torch")
+        proxy = RngProxy(sseed + 1)
+        proxy.record_values = False
+        res = smcrun.run(a, 20, "smc", dict(rng=proxy, adaptive=False, n_steps=2, sampler_kwargs={"n_steps": 1}, preconditioning="flow",
+                                            preconditioning_kwargs={"fit_kwargs": {"n_epochs": 2, "batch_size": 16}}), max_calls=500)
+        if res.exc is not None:
+            raise res.exc
+        s = res.samples
+        out.update(x=to_np(s.x), log_likelihood=to_np(s.log_likelihood), log_evidence=to_np(s.log_evidence), beta=np.asarray([float(to_np(b)) for b in res.history.beta]),
+                   acc=np.asarray([float(v) for v in res.history.mcmc_acceptance]))
+        info["route"] = "flow-preconditioning"
+        info["user_rng_draws"] = len(proxy.draws)
     elif kind in ("is_zuko", "is_flowjax"):
         backend = "zuko" if kind == "is_zuko" else "flowjax"
         xpn = str(g.choice(["numpy", "torch", "jax"]))
